@@ -172,6 +172,9 @@ func vfC11Ack() {
 			vfAssert(h.command.LockId != vfLockId(1), "C11: the failed ack-required lock is still a holder")
 		}
 		vfAssert(vfCountResult(env.replies, wreq, protocol.RESULT_SUCCED) == 1, "C11: the queued request was not served after the ack-required lock was rolled back")
+		// the request has had its terminal reply: when its own wait runs out nothing more is sent
+		vfTick(env, 8)
+		vfAssert(len(env.repliesFor(req)) == 1, "C03: a require-ack lock that was answered with an error drew a second reply when its wait ran out")
 		vfReach("rolled-back")
 	}
 	vfReach("end")
